@@ -147,13 +147,22 @@ func runC09(c *Ctx) error {
 				if fault == "disconnect" && c.quick() {
 					step = 3
 				}
-				for k := 0; k < maxK; k += step {
-					tag := fmt.Sprintf("session server=%v pmd=%v fault=%s k=%d", server, pmd, fault, k)
-					what, sig, replay := c09Session(c, server, pmd, fault, k, tag)
-					if what != "" {
-						c.oracleFail(what+" ["+tag+"]", sig, replay)
+				reps := 1
+				if !c.quick() {
+					reps = 4 // the inbound stream is re-chunked at random on every repetition
+					if fault == "disconnect" {
+						maxK = 80
 					}
-					c.count(tag, true, "fault="+fault, "role="+roleName(server))
+				}
+				for rep := 0; rep < reps; rep++ {
+					for k := 0; k < maxK; k += step {
+						tag := fmt.Sprintf("session server=%v pmd=%v fault=%s k=%d", server, pmd, fault, k)
+						what, sig, replay := c09Session(c, server, pmd, fault, k, tag)
+						if what != "" {
+							c.oracleFail(what+" ["+tag+"]", sig, replay)
+						}
+						c.count(fmt.Sprintf("%s rep=%d", tag, rep), true, "fault="+fault, "role="+roleName(server))
+					}
 				}
 			}
 		}
